@@ -370,9 +370,12 @@ func (c *checker) checkSeq(s *Seq) {
 			rep.Violation(sig, fmt.Sprintf("%s returned nil, reference: %s\n%s\nobserved vector: %s", op, predText, text(i), first.vec), w)
 			agree = false
 		case p.rule == "" && cls == 'e':
-			rep.Violation("C20/rejected-well-formed/"+s.FE+"-"+callName(op),
-				fmt.Sprintf("%s returned an error (%s) although the reference finds the construction well-formed so far\n%s\nobserved vector: %s",
-					op, firstLine(res.Err.Error()), text(i), first.vec), w)
+			// The property demands that ill-formed constructions are rejected; it does not demand that
+			// everything else is accepted (eino may validate more than the statement lists). An extra
+			// rejection is therefore counted, not reported; determinism and stickiness of this sequence
+			// are still judged above, the reference comparison stops here.
+			rep.Count("rejected_although_reference_finds_it_well_formed", 1)
+			_ = firstLine
 			agree = false
 		}
 		if !agree {
